@@ -19,6 +19,7 @@
 //!   !auth <0|1>              pass the AuthManager to dispatch (default 0)
 //!   !sleep <ms>
 //!   !flushwait               ShardManager::wait_for_flush_completion
+//!   !failwrite <bytes>       the response writer of the NEXT command fails with BrokenPipe after <bytes> bytes
 //!   !exit                    clean exit without shutdown sequence
 use serde_json::json;
 use snel_db::command::dispatcher::dispatch_command;
@@ -28,13 +29,32 @@ use snel_db::shared::response::json::JsonRenderer;
 use std::io::{BufRead, Write};
 use std::sync::Arc;
 
+/// A response writer that can be armed to fail (client hung up) after a number of bytes.
+struct FailWriter { buf: Vec<u8>, fail_after: Option<usize> }
+impl tokio::io::AsyncWrite for FailWriter {
+    fn poll_write(mut self: std::pin::Pin<&mut Self>, _cx: &mut std::task::Context<'_>, data: &[u8]) -> std::task::Poll<std::io::Result<usize>> {
+        if let Some(n) = self.fail_after {
+            if self.buf.len() + data.len() > n {
+                return std::task::Poll::Ready(Err(std::io::Error::new(std::io::ErrorKind::BrokenPipe, "verif: client hung up")));
+            }
+        }
+        self.buf.extend_from_slice(data);
+        std::task::Poll::Ready(Ok(data.len()))
+    }
+    fn poll_flush(self: std::pin::Pin<&mut Self>, _cx: &mut std::task::Context<'_>) -> std::task::Poll<std::io::Result<()>> { std::task::Poll::Ready(Ok(())) }
+    fn poll_shutdown(self: std::pin::Pin<&mut Self>, _cx: &mut std::task::Context<'_>) -> std::task::Poll<std::io::Result<()>> { std::task::Poll::Ready(Ok(())) }
+}
+
+static FAIL_NEXT: std::sync::atomic::AtomicI64 = std::sync::atomic::AtomicI64::new(-1);
+
 async fn run_command(ctx: &Arc<FrontendContext>, line: &str, user: Option<String>, auth: bool) -> serde_json::Value {
     let cmd = match std::panic::catch_unwind(|| parse_command(line)) {
         Ok(Ok(c)) => c,
         Ok(Err(e)) => return json!({"parse_error": format!("{e:?}")}),
         Err(_) => return json!({"panic": "parse"}),
     };
-    let mut out: Vec<u8> = Vec::new();
+    let fa = FAIL_NEXT.swap(-1, std::sync::atomic::Ordering::SeqCst);
+    let mut out = FailWriter { buf: Vec::new(), fail_after: if fa >= 0 { Some(fa as usize) } else { None } };
     let am = if auth { ctx.auth_manager.as_ref() } else { None };
     let ctx2 = Arc::clone(ctx);
     let res = {
@@ -46,7 +66,7 @@ async fn run_command(ctx: &Arc<FrontendContext>, line: &str, user: Option<String
             Err(_) => Some("TIMEOUT".to_string()),
         }
     };
-    let text = String::from_utf8_lossy(&out).to_string();
+    let text = String::from_utf8_lossy(&out.buf).to_string();
     match res {
         None => json!({"out": text}),
         Some(e) => json!({"out": text, "error": e}),
@@ -132,6 +152,7 @@ pub fn run_life() {
                         let reg = ctx.registry.read().await;
                         match reg.get_uid(t[1]) { Some(u) => json!({"uid": u}), None => json!({"uid": null}) }
                     }
+                    "failwrite" => { FAIL_NEXT.store(t.get(1).and_then(|s| s.parse().ok()).unwrap_or(0), std::sync::atomic::Ordering::SeqCst); json!({"ok": true}) }
                     "user" => { user = if t.get(1).copied() == Some("-") || t.len() < 2 { None } else { Some(t[1].to_string()) }; json!({"ok": true}) }
                     "auth" => { auth = t.get(1).copied() == Some("1"); json!({"ok": true}) }
                     "sleep" => { tokio::time::sleep(std::time::Duration::from_millis(t[1].parse().unwrap())).await; json!({"ok": true}) }
